@@ -168,6 +168,7 @@ def packStep (vals : List Val) : CStep → Val → Option Bytes
     | 1, .b bs => if bs.length = 4 ∨ bs.length = 0 then some bs else none
     | 2, .b bs => if bs.length = 16 ∨ bs.length = 0 then some bs else none
     | 3, .t text => match packName text with | .ok w => some w | _ => none
+    | 3, .b [] => some []        -- the zero value after an early exit: no host, packDomainName("") writes nothing
     | 1, _ => none
     | 2, _ => none
     | 3, _ => none
